@@ -23,7 +23,7 @@ class Canon(Obligation):
     def __init__(self,maxlen=2,seed=0,known=(),rate=25,**kw):
         self.maxlen=maxlen; self.seed=seed; self.rate=rate
         self.bounds={'strings_and_keys':'0..%d free ASCII bytes (every control character, quote, backslash, DEL) plus fixed non-ASCII samples (U+00E9, U+2028, U+1F600)'%maxlen,
-                     'numbers':'PosInt(any u64), NegInt(any negative i64), Float','containers':'arrays and objects up to 2 members, one level of nesting, empty containers; object keys free (distinct) so every relative order occurs; fixed key sets mixing ASCII, Latin-1, high-BMP (U+E000..U+FFFF) and supplementary-plane characters',
+                     'numbers':'PosInt(any u64), NegInt(any negative i64), Float (1.5, -0.0, 1e-7, 1e16, 1e300, 5e-324: with and without a decimal point / exponent in serde_json\'s text)','containers':'arrays and objects up to 2 members, one level of nesting, empty containers; object keys free (distinct) so every relative order occurs; fixed key sets mixing ASCII, Latin-1, high-BMP (U+E000..U+FFFF) and supplementary-plane characters',
                      'source_text':'the claim starts at the parsed serde_json::Value (text -> Value is serde_json\'s parser); serde_json::Map is a BTreeMap (no preserve_order)'}
         self.witnesses=['string_roundtrip','posint','negint','float_rejected','object_sorted','escape_control']; self.seen=set()
     def setup(self,eng,tier):
@@ -43,7 +43,10 @@ class Canon(Obligation):
         if k==2: return jnum('PosInt',Int(64,False,z3.BitVec('u',64))),False
         if k==3:
             i=z3.BitVec('i',64); run.add(i<0); return jnum('NegInt',Int(64,True,i)),False
-        if k==4: return jnum('Float',Opaque('f64')),True
+        if k==4:
+            # non-integer numbers as serde_json holds them (f64) together with the text serde_json prints for them
+            t=['1.5','-0.0','1e-7','1e16','1e300','5e-324'][run.pick(6,'float')]
+            return jnum('Float',Opaque('f64',t)),True
         if k==5: return jbool(Bool(z3.Bool('b'))),False
         if k==6: return jnull(),False
         if k==7: return jarr([jstr(S('e',1)),jnum('PosInt',Int(64,False,z3.BitVec('u',64)))]),False
@@ -100,7 +103,8 @@ class Canon(Obligation):
         if t=='Bool': return bool(model_value(m,v.f[0].z()))
         if t=='Number':
             n=v.f[0].f[0]
-            if n.vname=='Float': return 1.5
+            if n.vname=='Float':
+                o=deref(n.f[0]); return {'__float__':o.p} if isinstance(o.p,str) else 1.5
             x=model_value(m,n.f[0].z())
             return x-(1<<64) if n.vname=='NegInt' and x>>63 else x
         if t=='String': return bytes(model_value(m,x) for x in deref(v.f[0]).b).decode()
@@ -121,7 +125,8 @@ class Canon(Obligation):
         if g['float']:
             if oc=='ok':
                 r,m=run.check_sat(z3.BoolVal(True))
-                rec['viol']={'kind':'float_accepted','known_key':None,'scenario':scn(m),'predicted':'ok','what':'a value containing a non-integer number is canonicalised instead of rejected'}
+                ob=byte_list(deref(out[1]).f[0])
+                rec['viol']={'kind':'float_accepted','known_key':None,'scenario':scn(m),'predicted':'bytes:'+bytes(model_value(m,x) for x in ob).hex(),'what':'a value containing a non-integer number is canonicalised instead of rejected'}
             else: wit('float_rejected')
             return rec
         if oc!='ok':
